@@ -221,7 +221,8 @@ def autocrop(data, px):
 
     """
     com = centroid(data, unit='pixels')
-    cy, cx = (int(c) for c in com)
+    # nearest sample: the center of mass of a source on sample 3 may come out as 2.9999999999999996, which int() would put on sample 2
+    cy, cx = (int(round(c)) for c in com)
     w = px // 2
     # px is the full width: [c - px//2, c - px//2 + px) puts the centroid on sample px//2 of the window
     aoi_y_l = cy - w
